@@ -43,12 +43,14 @@ class Fn:
         self.facts = facts
         self.j = j
         if promoted_of is None:
-            self.defp = j['def']
+            self.defp = j.get('key', j['def'])
+            self.rawdef = j['def']
+            self.uid = j.get('uid')
             self.name = j['name']
             self.kind = j['kind']
             self.body = j['body']
-            self.root = j.get('root', j['def'])
-            self.parent = j.get('parent')
+            self.root = j.get('root_key', j.get('root', self.defp))
+            self.parent = j.get('parent_key', j.get('parent'))
             self.impl_of = j.get('impl_of')
             self.file = j['span']['file']
             self.line = j['span']['line']
@@ -61,6 +63,8 @@ class Fn:
             self.promoted = [Fn(facts, pb, promoted_of=self, pidx=i) for i, pb in enumerate(j.get('promoted', []))]
         else:
             self.defp = '%s::{promoted#%d}' % (promoted_of.defp, pidx)
+            self.rawdef = self.defp
+            self.uid = None
             self.name = '{promoted}'
             self.kind = 'promoted'
             self.body = j
@@ -189,14 +193,14 @@ class Fn:
 
 
 def callee_def(t):
-    """canonical (raw) callee def path of a call terminator: resolved def if available"""
+    """canonical callee key of a call terminator: the resolved item (unique key for local functions) if available"""
     c = t.get('callee', {})
     if 'indirect' in c:
         return 'indirect:' + c['indirect']
     r = c.get('resolved')
     if r and r.get('kind') in ('item', 'intrinsic'):
-        return r['def']
-    return c.get('def', '?')
+        return r.get('key') or r['def']
+    return c.get('key') or c.get('def', '?')
 
 
 _cn_cache = {}
@@ -271,6 +275,34 @@ class Facts:
         self.crate = self.j['crate']
         self.config = self.j['config']
         self.nonce = self.j['nonce']
+        # printed def paths are not unique (items in different anonymous `const _` scopes print alike):
+        # link by the compiler's def-path (uid); the dict key is the printed path, disambiguated with #n on collision
+        counts = {}
+        for fj in self.j['fns']:
+            counts[fj['def']] = counts.get(fj['def'], 0) + 1
+        seen = {}
+        self.key_of_uid = {}
+        for fj in sorted(self.j['fns'], key=lambda x: x.get('uid') or ''):
+            d = fj['def']
+            if counts[d] > 1:
+                seen[d] = seen.get(d, 0) + 1
+                fj['key'] = '%s#%d' % (d, seen[d])
+            else:
+                fj['key'] = d
+            if fj.get('uid'):
+                self.key_of_uid[fj['uid']] = fj['key']
+        for fj in self.j['fns']:
+            if fj.get('root_uid'):
+                fj['root_key'] = self.key_of_uid.get(fj['root_uid'], fj.get('root'))
+            if fj.get('parent_uid'):
+                fj['parent_key'] = self.key_of_uid.get(fj['parent_uid'], fj.get('parent'))
+            self._rekey_body(fj.get('body'))
+            for pb in fj.get('promoted', []):
+                self._rekey_body(pb)
+        for im in self.j['impls']:
+            for it in im.get('items', []):
+                if it.get('uid') in self.key_of_uid:
+                    it['def'] = self.key_of_uid[it['uid']]
         self.fns = {}
         for fj in self.j['fns']:
             fn = Fn(self, fj)
@@ -286,6 +318,23 @@ class Facts:
         for fn in self.fns.values():
             if fn.kind in ('closure', 'coroutine'):
                 self._children.setdefault(fn.root, []).append(fn)
+
+    def _rekey_body(self, body):
+        if not body:
+            return
+        for b in body['blocks']:
+            for st in b['stmts']:
+                rv = st.get('rv') or {}
+                if rv.get('closure_uid') in self.key_of_uid:
+                    rv['closure'] = self.key_of_uid[rv['closure_uid']]
+            t = b['term']
+            c = t.get('callee')
+            if c:
+                r = c.get('resolved')
+                if r and r.get('uid') in self.key_of_uid:
+                    r['key'] = self.key_of_uid[r['uid']]
+                if c.get('uid') in self.key_of_uid:
+                    c['key'] = self.key_of_uid[c['uid']]
 
     # -- lookup ---
     def fn(self, name, optional=False):
